@@ -51,6 +51,10 @@ Definition spec_fields_ok (p : QP) : bool :=
   | _ => false
   end.
 
+(* ---- Paint*.gettransform of the classes transformed emits (used by breadth_first, clip boxes, COLRv0 layers) ---- *)
+Definition gt_case := (QP * QA)%type.
+Definition gt_agree (c : gt_case) : bool := aff_eqb (gettransform (fst c)) (snd c).
+
 (* ---- transformed ---- *)
 Definition tr_case := (QA * QP * QP)%type.
 Definition tr_agree (c : tr_case) : bool :=
